@@ -24,6 +24,95 @@ MASS_CLASSES = ["generic", "one_massless", "two_massless", "equal", "hierarchica
 STRATA = ["flat", "threshold", "boosted", "collinear", "heavy"]
 
 
+DPD_FIXTURES = ["jpsi_k0_sigmap_pbar__sigma1775_n1650.hel", "jpsi_gamma_pi0_pi0__f0_f2.hel",
+                "jpsi_k0_sigmap_pbar__sigma1750.hel"]
+
+
+def _run_dpd_model(case, rec, ctx, rng):
+    """Alignment angles of a DPD-aligned model: for reference subsystem r, rotated state i with spin and chain
+    spectator k the model must define zeta^i_{k(r)} (no other reference), with the value of formulate_zeta_angle(i,k,r)
+    (whose geometry and identities the other strata judge), and must use exactly the angles it defines."""
+    import re
+
+    import sympy as sp
+    from ampform import get_builder
+    from ampform.helicity.align.dpd import DalitzPlotDecomposition, relabel_edge_ids
+    from ampform.helicity.decay import get_spectator_id
+    from vmon.workloads.reactions import load_fixture, topologies_of
+
+    A = ctx["A"]
+    ref = case["ref"]
+    feats = {"family": "dpd_model", "fixture": case["fixture"], "ref": ref}
+    r = load_fixture(case["fixture"])
+    if set(r.final_state) != {1, 2, 3}:
+        r = relabel_edge_ids(r)
+    rec.case(("dpd_model", case["fixture"], ref), True, family="dpd_model")
+    b = get_builder(r)
+    b.config.spin_alignment = DalitzPlotDecomposition(ref)
+    model = b.formulate()
+    spins = {0: next(iter(r.initial_state.values())).spin}
+    spins.update({i: p.spin for i, p in r.final_state.items()})
+    spectators = sorted({get_spectator_id(t) for t in topologies_of(r)})
+    expected = {(i, k, ref) for i in range(4) if spins[i] != 0 for k in spectators}
+    pat = re.compile(r"^\\zeta\^(\d)_\{(\d)\((\d)\)\}$")
+    defined = {}
+    for sym, expr in model.kinematic_variables.items():
+        m = pat.match(sym.name)
+        if m:
+            defined[tuple(int(g) for g in m.groups())] = (sym, expr)
+    rec.check(len(expected) == 0 or len(defined) > 0, "dpd_no_alignment_angles",
+              f"DPD model with reference {ref} defines no alignment angle although states {sorted(i for i in spins if spins[i])} carry spin",
+              {"fixture": case["fixture"], "ref": ref}, feats)
+    wrong_ref = sorted(k for k in defined if k[2] != ref)
+    rec.check(not wrong_ref, "dpd_wrong_reference",
+              f"DalitzPlotDecomposition(reference_subsystem={ref}) defines alignment angles relative to another subsystem: {wrong_ref[:4]}",
+              {"fixture": case["fixture"], "ref": ref, "defined": sorted(defined)}, feats)
+    rec.check(set(defined) == expected, "dpd_angle_set",
+              f"alignment angles defined {sorted(defined)} != required {sorted(expected)} (rotated states with spin x chain spectators, reference {ref})",
+              {"fixture": case["fixture"], "ref": ref}, feats)
+    used = set(model.expression.free_symbols)
+    for e in model.amplitudes.values():
+        used |= e.free_symbols
+    used = {s for s in used if pat.match(s.name)}
+    undefined = sorted(s.name for s in used if s not in model.kinematic_variables)
+    rec.check(not undefined, "dpd_undefined_angle", f"model uses alignment angles it does not define: {undefined}",
+              {"fixture": case["fixture"], "ref": ref}, feats)
+    vals = None
+    raw = {s.name: e for s, e in DalitzPlotDecomposition(ref).define_symbols(r).items()}
+    rec.check({n for n in raw if pat.match(n)} == {v[0].name for v in defined.values()}, "dpd_angle_set",
+              f"define_symbols() and the model disagree on the alignment angles: {sorted(raw)} vs {sorted(v[0].name for v in defined.values())}",
+              {"fixture": case["fixture"], "ref": ref}, feats)
+    for (i, k, rr), (sym, _model_expr) in sorted(defined.items()):
+        if sym.name not in raw:
+            continue
+        expr = raw[sym.name]  # in the mass symbols m_0..m_23 (the model substitutes invariant masses of four-momenta)
+        want = A.formulate_zeta_angle(i, k, rr)[1]
+        if sp.sympify(expr) == sp.sympify(want):
+            rec.check(True, "dpd_angle_value", "", None, feats)
+            if (k == rr):
+                rec.check(sp.sympify(expr) == 0, "dpd_reference_chain_zero", f"{sym.name} must be 0 (chain of the reference subsystem), got {expr}",
+                          {"fixture": case["fixture"], "ref": ref}, feats)
+            continue
+        if vals is None:
+            from vmon.props.c20 import masses_for
+            from vmon.workloads.events import gen_events, mass2
+            M0, ms = masses_for("generic", rng)
+            ev = gen_events(M0, ms, 50, rng, ids=[1, 2, 3], stratum="flat")
+            mass = lambda q: np.sqrt(np.maximum(mass2(q), 0))  # noqa: E731
+            vals = {"m_0": np.full(50, M0), "m_1": np.full(50, ms[0]), "m_2": np.full(50, ms[1]), "m_3": np.full(50, ms[2]),
+                    "m_23": mass(ev[2] + ev[3]), "m_13": mass(ev[1] + ev[3]), "m_12": mass(ev[1] + ev[2])}
+        syms = sorted(sp.sympify(expr).free_symbols | sp.sympify(want).free_symbols, key=str)
+        ok = {s.name for s in syms} <= set(vals)
+        if ok:
+            f = sp.lambdify(syms, [sp.sympify(expr).doit(), sp.sympify(want).doit()], "numpy")
+            with np.errstate(all="ignore"):
+                a, w = f(*[vals[s.name] for s in syms])
+            a, w = np.broadcast_to(a, (50,)), np.broadcast_to(w, (50,))
+            ok = bool(np.all(np.abs(a - w) <= 1e-6))
+        rec.check(ok, "dpd_angle_value", f"model defines {sym.name} differently from formulate_zeta_angle({i},{k},{rr})",
+                  {"fixture": case["fixture"], "ref": ref, "defined": str(expr)[:200], "expected": str(want)[:200]}, feats)
+
+
 def plan(tier, seed):
     reps = 1 if tier == "quick" else 100
     cases = []
@@ -32,6 +121,11 @@ def plan(tier, seed):
             for st in STRATA:
                 cases.append({"masses": mc, "stratum": st, "rep": rep, "cost": 1.0})
     cases.append({"masses": "generic", "stratum": "signature", "rep": 0, "cost": 0.2})
+    # the alignment angles a Dalitz-plot-decomposition model defines, for every reference subsystem (anchor:
+    # _DPDAlignmentWignerGenerator uses the zeta angles)
+    for fx in DPD_FIXTURES:
+        for ref in (1, 2, 3):
+            cases.append({"masses": "generic", "stratum": "dpd_model", "fixture": fx, "ref": ref, "rep": 0, "cost": 3.0})
     return cases
 
 
@@ -165,6 +259,8 @@ def run_case(case, rec, ctx):
                       f"formulate_scattering_angle({i},{j}): {'refused' if isinstance(e, Exception) else 'accepted'} but index pair is {'valid' if valid else 'invalid'}",
                       {"i": i, "j": j}, {"family": "signature", "reversed_pair": (i, j) in ((2, 1), (3, 2), (1, 3))})
         return
+    if st == "dpd_model":
+        return _run_dpd_model(case, rec, ctx, rng)
     M0, ms = masses_for(mc, rng)
     n = 300 if ctx["tier"] == "quick" else 1500
     ev = gen_events(M0, ms, n, rng, ids=[1, 2, 3], stratum=st)
@@ -378,6 +474,6 @@ def run_case(case, rec, ctx):
 
 META = {
     "technique": "runtime contracts on formulate_scattering_angle / formulate_theta_hat_angle / formulate_zeta_angle: lambdified results compared with angles measured on generated four-momenta and with the identities of the statement",
-    "level_text": "All index tuples the three functions accept are evaluated on masses derived from generated three-body events (six mass classes incl. massless/equal/near-threshold, five event strata incl. collinear and threshold) and judged against vector-algebra angles (theta-hat, scattering angle, elementary zeta angle) and the listed identities (antisymmetry, theta_ij+theta_ji=pi, zeta reference rules, cyclic sum rules, arccos domain). Observation of executions only. Route B (exact masses inserted before doit(), exact zeros for massless particles) is compared with the symbolic route for every formula.",
+    "level_text": "All index tuples the three functions accept are evaluated on masses derived from generated three-body events (six mass classes incl. massless/equal/near-threshold, five event strata incl. collinear and threshold) and judged against vector-algebra angles (theta-hat, scattering angle, elementary zeta angle) and the listed identities (antisymmetry, theta_ij+theta_ji=pi, zeta reference rules, cyclic sum rules, arccos domain). Observation of executions only. Route B (exact masses inserted before doit(), exact zeros for massless particles) is compared with the symbolic route for every formula. Dalitz-plot-decomposition models of three fixtures are formulated for every reference subsystem 1, 2, 3 and the alignment angles they define are judged: all relative to the requested reference, one per (rotated state with spin, chain spectator), value equal to formulate_zeta_angle(i,k,r), zero for the reference chain, every used angle defined.",
     "level_note": "Reference geometry follows the property text (angle of i w.r.t. -p_k in the (ij) frame); acos conditioning 1/sin(angle) enters the tolerance; points within rounding of the Dalitz boundary are judged only for arccos-domain excursions > 1e-7.",
 }
